@@ -20,8 +20,13 @@ AUTH0/PROT, AUTHLIM counting, lock bits, counters, signature.
 
 Loaded through the symx loader in symbolic mode: `bytearray` here builds a
 symbolic-capable byte string; natively it is the builtin.
+
+For C16 (transient faults): NxpHookSim puts NxpSim behind the fault hook of
+env.tags.SimBase, and UlcSim is a MIFARE Ultralight C (MF0ICU2) with the
+3DES mutual authentication, built on env.tags.Tt2Sim.
 """
 import nfc.clf
+from env import tags
 
 # product -> (version bytes, pages, first configuration page)
 PRODUCTS = {
@@ -141,4 +146,205 @@ def target():
     t.sens_res = bytearray(b"\x44\x00")
     t.sel_res = bytearray(b"\x00")
     t.sdd_res = bytearray(b"\x04\x51\x7C\xA1\xE1\xED\x25\x80")
+    return t
+
+
+class NxpHookSim(NxpSim):
+    """NxpSim behind the fault-injection interface of env.tags.SimBase (C16):
+    `hook(sim, cmd)` runs at the start of every exchange and either raises
+    (command lost, tag does not execute) or returns an exception that is
+    raised after the tag executed (response lost); `sent` lists
+    (command, answered?) of the commands that reached the tag; `mem` is the
+    memory as one flat list.  Used with env.tags.SimClf."""
+
+    def __init__(self, *args, **kwargs):
+        NxpSim.__init__(self, *args, **kwargs)
+        self.hook = None
+        self.sent = []
+        self.gone = False
+        self.ncmd = 0
+
+    def exchange(self, cmd, timeout):
+        self.ncmd += 1
+        if self.gone:
+            raise nfc.clf.TimeoutError("tag gone")
+        drop = None
+        if self.hook is not None:
+            drop = self.hook(self, cmd)      # may raise (command lost)
+        if self.gone or self.mute:
+            raise nfc.clf.TimeoutError("tag in idle/halt state")
+        self.sent.append((list(cmd), False))
+        rsp = self.execute(cmd)
+        if drop is not None:
+            raise drop                       # executed, response lost/garbled
+        self.sent[-1] = (self.sent[-1][0], True)
+        return rsp
+
+    def is_write(self, cmd):
+        return len(cmd) > 0 and cmd[0] == 0xA2
+
+    def resense(self):
+        if self.gone:
+            return False
+        return NxpSim.resense(self)
+
+    @property
+    def mem(self):
+        out = []
+        for p in self.pages:
+            out += p
+        return out
+
+
+# ----------------------------------------------------------------------------
+# MIFARE Ultralight C (MF0ICU2)
+# ----------------------------------------------------------------------------
+class UlcCipher(object):
+    """two-key triple DES in CBC mode by pyDes itself (all inputs concrete;
+    a symbolic byte reaching it ends the path as Unsupported)"""
+
+    def _des(self, key, iv):
+        import pyDes
+        return pyDes.triple_des(bytes(bytearray(key)), pyDes.CBC,
+                                bytes(bytearray(iv)))
+
+    def encrypt(self, key, iv, data):
+        return list(bytearray(self._des(key, iv).encrypt(bytes(bytearray(data)))))
+
+    def decrypt(self, key, iv, data):
+        return list(bytearray(self._des(key, iv).decrypt(bytes(bytearray(data)))))
+
+
+def ulc_key_pages(key):
+    """the 16 memory bytes of pages 44..47 for the 3DES key K1 || K2 (each
+    half is stored byte-reversed: page 44 holds K1 bytes 7..4, ...)"""
+    key = list(key)
+    return [key[7 - i] for i in range(8)] + [key[15 - i] for i in range(8)]
+
+
+class UlcSim(tags.Tt2Sim):
+    """MIFARE Ultralight C, written from the product data sheet MF0ICU2,
+    independent of nfcpy; built on env.tags.Tt2Sim (fault hook, logs).
+
+    * 48 pages of 4 bytes: 0-1 UID, 2 lock bytes, 3 OTP, 4-39 user memory,
+      40 lock bytes, 41 counter, 42 AUTH0, 43 AUTH1, 44-47 3DES key
+      (write-only).  Lock bits, OTP and counter are plain memory here.
+    * READ (30h) returns 16 bytes and rolls over to page 0 behind page 43
+      (behind the last readable page when reading is restricted); pages 44-47
+      cannot be read (NAK).  WRITE (A2h) stores one page.
+    * AUTHENTICATE: `1A 00` is answered with AFh || ek(RndB) (CBC, IV 0);
+      `AF` || ek(RndA || RndB') (IV = ek(RndB)) is answered with
+      00h || ek(RndA') (IV = last cipher block received) iff RndB' is RndB
+      rotated left by one byte, NAK otherwise.  A second `1A 00` restarts the
+      handshake with a new RndB; any other command while part 2 is awaited is
+      NAKed.  `AF` without a handshake in progress is an unknown command.
+    * AUTH0 = first page that needs authentication; AUTH1 bit 0: 1 = only
+      writing is restricted, 0 = reading too.  AUTH0, AUTH1 and the key become
+      effective with the next activation (resense), which also ends the
+      authenticated state.
+    * a NAK leaves the tag mute until it is sensed again (Tt2Sim.nak)."""
+    ulc = True
+
+    def __init__(self, mem, uid, key, auth0=0x30, auth1=0x00, cipher=None):
+        assert len(mem) == 192
+        tags.Tt2Sim.__init__(self, mem, uid=uid)
+        mem[160:168] = [0] * 8
+        mem[168:172] = [auth0, 0, 0, 0]
+        mem[172:176] = [auth1, 0, 0, 0]
+        mem[176:192] = ulc_key_pages(key)
+        self.cipher = cipher or UlcCipher()
+        self.authenticated = False
+        self.pending = None          # (RndB, ek(RndB)) while part 2 is awaited
+        self.nchallenge = 0
+        self.latch()
+
+    def latch(self):
+        m = self.mem
+        self.key_eff = [m[183 - i] for i in range(8)] + [m[191 - i] for i in range(8)]
+        self.auth0_eff = m[168]
+        self.auth1_eff = m[172]
+
+    def resense(self):
+        if not tags.Tt2Sim.resense(self):
+            return False
+        self.pending = None
+        self.authenticated = False
+        self.latch()
+        return True
+
+    def nak(self):
+        self.pending = None
+        self.authenticated = False
+        return tags.Tt2Sim.nak(self)
+
+    def stored_key(self):
+        """K1 || K2 as stored in pages 44..47 right now"""
+        m = self.mem
+        return [m[183 - i] for i in range(8)] + [m[191 - i] for i in range(8)]
+
+    def execute(self, cmd):
+        n = len(cmd)
+        op = cmd[0] if n else None
+        if self.pending is not None:
+            rndb, ekb = self.pending
+            self.pending = None
+            if op == 0xAF and n == 17:
+                return self.auth_part2(cmd, rndb, ekb)
+            if not (op == 0x1A and n == 2 and cmd[1] == 0x00):
+                return self.nak()
+        if op == 0x1A and n == 2 and cmd[1] == 0x00:
+            self.log.append(("auth1", self.nchallenge))
+            self.authenticated = False
+            k = self.nchallenge
+            self.nchallenge += 1
+            rndb = [(0x3C + 17 * k + 29 * i) & 0xFF for i in range(8)]
+            ekb = self.cipher.encrypt(self.key_eff, [0] * 8, rndb)
+            self.pending = (rndb, ekb)
+            return bytearray([0xAF] + ekb)
+        if op == 0x30 and n == 2:
+            page = cmd[1]
+            limit = 44
+            if not self.authenticated and (self.auth1_eff & 1) == 0 and self.auth0_eff < 44:
+                limit = self.auth0_eff
+            if page >= limit:
+                return self.nak()
+            self.log.append(("read", page * 4))
+            out = []
+            for i in range(4):
+                p = (page + i) % limit
+                out += self.mem[p * 4:p * 4 + 4]
+            return bytearray(out)
+        if op == 0xA2 and n == 6:
+            page = cmd[1]
+            if page < 2 or page >= 48:
+                return self.nak()
+            if not self.authenticated and page >= self.auth0_eff:
+                return self.nak()
+            return tags.Tt2Sim.execute(self, cmd)
+        if op == 0xAF:
+            self.log.append(("auth2_without_auth1", 0))
+        # anything else (incl. SECTOR SELECT, GET_VERSION): not supported
+        self.pending = None
+        self.authenticated = False
+        self.mute = True
+        raise nfc.clf.TimeoutError("unknown command")
+
+    def auth_part2(self, cmd, rndb, ekb):
+        data = [cmd[1 + i] for i in range(16)]
+        plain = self.cipher.decrypt(self.key_eff, ekb, data)
+        rnda, rot = plain[0:8], plain[8:16]
+        if rot != rndb[1:8] + rndb[0:1]:
+            self.log.append(("auth2_refused", 0))
+            return self.nak()
+        self.log.append(("auth2", 0))
+        self.authenticated = True
+        eka = self.cipher.encrypt(self.key_eff, data[8:16], rnda[1:8] + rnda[0:1])
+        return bytearray([0x00] + eka)
+
+
+def ulc_target(uid):
+    t = nfc.clf.RemoteTarget("106A")
+    t.sens_res = bytearray(b"\x44\x00")
+    t.sel_res = bytearray(b"\x00")
+    t.sdd_res = bytearray(uid)
     return t
